@@ -289,6 +289,47 @@ def check_flows(chk, quick):
                          f"{backend} flow built and trained twice with seed/key {seed} differs in {what}", {"clause": "reproducible", "sampler": backend, "route": "flow", "seed": seed})
 
 
+def check_loaded_flow(chk):
+    """a proposal loaded from a file carries its seed: loading it and drawing, twice in one session (other torch randomness used in
+    between), gives bit-identical draws and log-densities"""
+    import tempfile
+
+    import h5py
+    import torch
+
+    from aspire.flows import get_flow_wrapper
+
+    F, xp = get_flow_wrapper("zuko")
+    data = np.random.default_rng(9).normal(0.1, 0.8, (100, 2))
+    f = F(dims=2, seed=4321, device="cpu")
+    f.fit(data, n_epochs=1)
+    tmp = tempfile.mkdtemp(prefix="aspire_verif_")
+    try:
+        p = f"{tmp}/flow.h5"
+        with h5py.File(p, "w") as h:
+            f.save(h, "flow")
+        outs = []
+        for k in range(3):
+            with ambient(k + 1):
+                if k:
+                    torch.rand(7 * k)            # unrelated use of torch's global generator between the loads
+                with h5py.File(p, "r") as h:
+                    g = F.load(h, "flow")
+                x, lq = g.sample_and_log_prob(12)
+                outs.append((ns.to_np(x).tobytes(), ns.to_np(lq).tobytes()))
+        case = {"level": "flow", "backend": "zuko", "route": "load-then-draw", "seed": 4321}
+        chk.count("flow:loaded")
+        chk.case(case, json.dumps(case))
+        if not (outs[0] == outs[1] == outs[2]):
+            chk.fail("same explicit sources give bit-identical results", case,
+                     "the same saved proposal (seed 4321 stored in the file) loaded and sampled three times in one session gives different draws",
+                     {"clause": "reproducible", "sampler": "zuko", "route": "flow-load", "seed": 4321})
+    finally:
+        import shutil
+
+        shutil.rmtree(tmp, ignore_errors=True)
+
+
 def run(chk: core.Check):
     r = np.random.default_rng(chk.seed + 20020)
     quick = chk.tier == "quick"
@@ -301,6 +342,7 @@ def run(chk: core.Check):
     pred = check_wiring(chk)
     check_pairs(chk, r, 3 if quick else 40, pred)
     check_reuse(chk, r, 3 if quick else 30)
+    check_loaded_flow(chk)
     check_flows(chk, quick)
 
     def search():
